@@ -304,6 +304,97 @@ func readVotes(rn *raft.RawNode) map[uint64]bool {
 	return out
 }
 
+// ---- Stage D tie (member-* profiles): what the model Raft/RSC.lean must reproduce (CF / GT / HP lines, judged by lean/RaftDriver.lean)
+
+func raftField(rn *raft.RawNode, names ...string) reflect.Value {
+	v := reflect.ValueOf(rn).Elem().FieldByName("raft").Elem()
+	for _, n := range names {
+		v = v.FieldByName(n)
+		if v.Kind() == reflect.Ptr {
+			v = v.Elem()
+		}
+	}
+	return v
+}
+
+func pendingConfIndexOf(rn *raft.RawNode) uint64 { return raftField(rn, "pendingConfIndex").Uint() }
+
+// raftLog.lastIndex(): the unstable part first
+func (nd *simNode) lastIndex() uint64 {
+	u := raftField(nd.rn, "raftLog", "unstable")
+	if ents := u.FieldByName("entries"); ents.Len() > 0 {
+		return u.FieldByName("offset").Uint() + uint64(ents.Len()) - 1
+	}
+	if sp := u.FieldByName("snapshot"); !sp.IsNil() {
+		return sp.Elem().FieldByName("Metadata").FieldByName("Index").Uint()
+	}
+	li, _ := nd.ms.LastIndex()
+	return li
+}
+
+// is the entry at etcd index idx a conf change? (unstable entries first, then the persisted log as the shadow remembers it)
+func (nd *simNode) isConfAt(idx uint64) bool {
+	u := raftField(nd.rn, "raftLog", "unstable")
+	ents, off := u.FieldByName("entries"), u.FieldByName("offset").Uint()
+	if ents.Len() > 0 && idx >= off && idx < off+uint64(ents.Len()) {
+		return pb.EntryType(ents.Index(int(idx-off)).FieldByName("Type").Int()) != pb.EntryNormal
+	}
+	if idx >= 2 && int(idx-2) < len(nd.shadow) {
+		return nd.shadow[idx-2].pid>>40 == 1 || nd.shadow[idx-2].pid == math.MaxUint32-1
+	}
+	return false
+}
+
+func idsCsv(m map[uint64]struct{}) string {
+	if len(m) == 0 {
+		return "-"
+	}
+	ids := make([]uint64, 0, len(m))
+	for id := range m {
+		ids = append(ids, id)
+	}
+	sort.Slice(ids, func(a, b int) bool { return ids[a] < ids[b] })
+	parts := make([]string, len(ids))
+	for i, id := range ids {
+		parts[i] = strconv.FormatUint(id, 10)
+	}
+	return strings.Join(parts, ",")
+}
+
+// voters, learners, outgoing voters of the node's tracker config
+func cfgSets(rn *raft.RawNode) (string, string, string) {
+	c := rn.Status().Config
+	return idsCsv(c.Voters[0]), idsCsv(c.Learners), idsCsv(c.Voters[1])
+}
+
+// gateProbe steps a proposal message with n conf-change entries and, when the node is the leader and the proposal is taken, reports which
+// entries were appended as conf changes (1) or replaced by empty entries (0) and what pendingConfIndex became
+func (s *sim) gateProbe(nd *simNode, n int, step func() error) error {
+	if s.prof.member == 0 {
+		return step()
+	}
+	bs := nd.rn.BasicStatus()
+	pend, last := pendingConfIndexOf(nd.rn), nd.lastIndex()
+	err := step()
+	if bs.RaftState == raft.StateLeader && err == nil {
+		var kinds strings.Builder
+		for idx := last + 1; idx <= nd.lastIndex(); idx++ {
+			if nd.isConfAt(idx) {
+				kinds.WriteByte('1')
+			} else {
+				kinds.WriteByte('0')
+			}
+		}
+		k := kinds.String()
+		if k == "" {
+			k = "-"
+		}
+		fmt.Fprintf(s.w, "GT %d %d %d %d %d %s %d\n", nd.id, bs.Applied, pend, last, n, k, pendingConfIndexOf(nd.rn))
+		s.stats["tie-GT"]++
+	}
+	return err
+}
+
 // log projection: what Compact discarded comes from the shadow, everything else from the storage itself
 func (s *sim) logOf(nd *simNode) []ent {
 	fi, _ := nd.ms.FirstIndex()
@@ -432,7 +523,16 @@ func (s *sim) drain(nd *simNode) (out []pb.Message, selfAcks int) {
 				if err := cc.Unmarshal(e.Data); err != nil {
 					panic("harness: conf change does not unmarshal")
 				}
+				var vb, lb, ob string
+				if s.prof.member > 0 {
+					vb, lb, ob = cfgSets(nd.rn)
+				}
 				nd.conf = *nd.rn.ApplyConfChange(cc)
+				if s.prof.member > 0 {
+					va, la, oa := cfgSets(nd.rn)
+					fmt.Fprintf(s.w, "CF %d %d %d %d %s %s %s %s %s %s\n", nd.id, e.Index, int(cc.Type), cc.NodeID, vb, lb, ob, va, la, oa)
+					s.stats["tie-CF"]++
+				}
 				s.stats["confchange-applied"]++
 				if cc.Type == pb.ConfChangeRemoveNode && cc.NodeID == nd.id {
 					nd.removed = true
@@ -726,6 +826,34 @@ func (s *sim) doCampaign(i int) {
 		if nd.rn.BasicStatus().RaftState != raft.StateLeader {
 			s.stats["elections"]++
 		}
+		if s.prof.member > 0 {
+			bs := nd.rn.BasicStatus()
+			vs, ls, _ := cfgSets(nd.rn)
+			var flags strings.Builder
+			for idx := bs.Applied + 1; idx <= bs.Commit; idx++ {
+				if nd.isConfAt(idx) {
+					flags.WriteByte('1')
+				} else {
+					flags.WriteByte('0')
+				}
+			}
+			f := flags.String()
+			if f == "" {
+				f = "-"
+			}
+			pendingSnap := !raftField(nd.rn, "raftLog", "unstable").FieldByName("snapshot").IsNil()
+			_ = nd.rn.Campaign()
+			if pendingSnap {
+				return []string{"hup"} // promotable() also refuses while a snapshot is waiting to be applied: outside the model
+			}
+			camp := 0
+			if nd.rn.BasicStatus().Term > bs.Term {
+				camp = 1
+			}
+			fmt.Fprintf(s.w, "HP %d %d %s %s %s %d\n", nd.id, int(bs.RaftState), vs, ls, f, camp)
+			s.stats["tie-HP"]++
+			return []string{"hup"}
+		}
 		_ = nd.rn.Campaign()
 		return []string{"hup"}
 	})
@@ -906,7 +1034,7 @@ func (s *sim) doConfChange(i int) {
 		}
 		s.stats["confchange-batched"]++
 		s.event("confchange", i, func() []string {
-			err := nd.rn.Step(pb.Message{Type: pb.MsgProp, From: nd.id, Entries: ents})
+			err := s.gateProbe(nd, len(ents), func() error { return nd.rn.Step(pb.Message{Type: pb.MsgProp, From: nd.id, Entries: ents}) })
 			if err != nil && !errors.Is(err, raft.ErrProposalDropped) {
 				panic(fmt.Sprintf("harness: Step(MsgProp with %d conf changes): %v", len(ents), err))
 			}
@@ -915,7 +1043,7 @@ func (s *sim) doConfChange(i int) {
 		return
 	}
 	s.event("confchange", i, func() []string {
-		err := nd.rn.ProposeConfChange(cc)
+		err := s.gateProbe(nd, 1, func() error { return nd.rn.ProposeConfChange(cc) })
 		if err != nil && !errors.Is(err, raft.ErrProposalDropped) {
 			panic(fmt.Sprintf("harness: ProposeConfChange: %v", err))
 		}
